@@ -307,6 +307,36 @@ class Ctx:
                 return ("const", cv[t[1]]) + tuple(t[2:])
         return t
 
+    def enum_variant(self, t):
+        """path of the data-less enum variant a term stands for: the aggregate itself, a named
+        constant of the crate evaluated by the compiler (`const DEFAULT_POLICY: P = P::A`), or a
+        call of an argument-less crate function that returns one (`P::default()` with
+        `#[default] A`); None otherwise"""
+        from mirq.prov import strip_wrap, strip_clone
+        t = strip_clone(strip_wrap(t))
+        if t[0] == "agg" and t[1].startswith("adt:") and not t[2]:
+            return t[1][4:]
+        if t[0] == "const":
+            v = self.const_lit(t)
+            if isinstance(v[1], str) and v[1] != t[1] and "::" in v[1]:
+                return v[1]
+            return None
+        if t[0] == "call":
+            cb = self.prog.by_key.get(t[2])
+            if cb is None and isinstance(t[1], tuple) and len(t[1]) >= 2:
+                # trait call resolved to an impl of the crate
+                from mirq.program import Site
+                ob = self.prog.by_path.get(t[1][0])
+                if ob is not None and ob.blocks[t[1][1]]["term"]["k"] == "call":
+                    cb = self.prog.callee_body(Site(ob, t[1][1], ob.blocks[t[1][1]]["term"]))
+            if cb is not None and cb.arg_count == 0:
+                cfg = self.prog.cfg(cb)
+                if len(cfg.exits) == 1:
+                    rt = strip_wrap(self.prog.bp(cb).local_term(0, cfg.exits[0], "term"))
+                    if rt[0] == "agg" and rt[1].startswith("adt:") and not rt[2]:
+                        return rt[1][4:]
+        return None
+
     def helper_root(self, body, need=None):
         """the nearest enclosing inherent method of the same type (going up single-caller chains of
         static crate calls) whose synchronous call tree satisfies `need` (e.g. "acquires the list
